@@ -868,8 +868,12 @@ static int ec_substitute(char *loc, char *cmd, char *arg, char *txt)
 				break;
 		}
 		if (r) {
+			int n = lbuf_len(xb);
 			sbuf_str(r, ln);
 			lbuf_edit(xb, sbuf_buf(r), i, i + 1);
+			n = lbuf_len(xb) - n;	/* lines added or removed */
+			i += n;
+			end += n;
 			sbuf_free(r);
 		}
 	}
